@@ -155,6 +155,39 @@ def fdef(x=None, acc=[]):
     if x is not None:
         acc.append(x)
     return list(acc)
+def kw(a, b=2, *rest, c=3, d=4, **more):
+    return (a, b, rest, c, d, sorted(more.keys()))
+def mkcounter(start):
+    n = [start]
+    def inc(step=1):
+        n[0] += step
+        return n[0]
+    return inc
+def gen3(base):
+    for i in range(3):
+        yield base + i
+class Box:
+    count = 0
+    def __init__(self, v, scale=1):
+        self.v = v * scale
+        Box.count += 1
+    def get(self, add=0):
+        return self.v + add
+def workout(k):
+    out = [kw(k, c=k + 1), kw(k, k, k, d=5, zz=1, yy=2), kw(a=k, b=k)]
+    inc = mkcounter(k)
+    out.append([inc(), inc(step=2)])
+    out.append(list(gen3(k)))
+    out.append(sorted({str(i): i * k for i in range(3)}.items() if False else [str(i) for i in range(3)]))
+    b = Box(k, scale=2)
+    out.append((b.get(), b.get(add=1), Box.count > 0))
+    try:
+        [][k]
+    except IndexError as e:
+        out.append(exc_name(e))
+    out.append("%s-%d" % ("w", k))
+    out.append([x * y for x in range(2) for y in range(k % 3 + 1)])
+    return out
 `
 
 func (p Program) Render() string {
@@ -172,7 +205,7 @@ func (p Program) Render() string {
 			}
 			fmt.Fprintf(&b, "try:\n    log(%d, \"%s\", %s)\nexcept Exception as _e:\n    log(%d, \"%s\", \"exc\", exc_name(_e))\n", i, s.Loc, e, i, s.Loc)
 		case "spin":
-			fmt.Fprintf(&b, "_t = 0\nfor _i in range(%d):\n    _t += _i\nlog(%d, \"spin\", _t)\n", s.V, i)
+			fmt.Fprintf(&b, "_t = 0\nfor _i in range(%d):\n    _t += _i\nlog(%d, \"spin\", _t, workout(%d))\n", s.V, i, s.V%5)
 		}
 	}
 	return b.String()
@@ -207,7 +240,7 @@ func (Engine) Gen(seed uint64, idx int, tier string) interface{} {
 			switch x := r.Intn(10); {
 			case x < 4:
 				p.Stmts = append(p.Stmts, Stmt{K: "write", Loc: loc, V: c*1000 + i})
-			case x < 9:
+			case x < 8:
 				p.Stmts = append(p.Stmts, Stmt{K: "read", Loc: loc})
 			default:
 				p.Stmts = append(p.Stmts, Stmt{K: "spin", V: 1 + r.Intn(20)})
